@@ -154,7 +154,9 @@ func (cons *VesaFbConsole) DefaultColors() (fg uint8, bg uint8) {
 // Fill sets the contents of the specified rectangular region to the requested
 // color. Both x and y coordinates are 1-based.
 func (cons *VesaFbConsole) Fill(x, y, width, height uint32, _, bg uint8) {
-	if cons.font == nil {
+	// Without a font, or with a font whose glyphs do not fit the text area,
+	// the character grid is empty and there is nothing to fill.
+	if cons.font == nil || cons.widthInChars == 0 || cons.heightInChars == 0 {
 		return
 	}
 
